@@ -265,3 +265,47 @@ theorem genStep_refines (N : Nat) (d : Gen σ V P) (a : AbsGen σ V P) (h : Rel 
       · exact ⟨_, hs, fuel1, fun extra => by simp only [hf1 extra]⟩
 
 end GoCo
+
+namespace GoCo
+variable {σ V P : Type} [Inhabited V]
+
+/-! ### operation histories -/
+
+def absRun (a : AbsGen σ V P) (st : σ) : List (Op V) → AbsGen σ V P × σ × List (Obs V P)
+  | [] => (a, st, [])
+  | op :: ops =>
+    let (a', st', o) := absStep a op st
+    let (a'', st'', os) := absRun a' st' ops
+    (a'', st'', o :: os)
+
+def genRun (N fuel : Nat) (d : Gen σ V P) (st : σ) : List (Op V) → Option (Gen σ V P × σ × List (Obs V P))
+  | [] => some (d, st, [])
+  | op :: ops =>
+    match genStep N fuel d op st with
+    | none => none
+    | some (d', st', o) =>
+      match genRun N fuel d' st' ops with
+      | none => none
+      | some (d'', st'', os) => some (d'', st'', o :: os)
+
+/-- **Iterator protocol, all histories**: for every sequence of MoveNext / Current / Send / Result
+    calls the generator object returns what the abstract iterator returns, with the same store
+    effects, given enough machine fuel. -/
+theorem genRun_refines (N : Nat) (ops : List (Op V)) :
+    ∀ (d : Gen σ V P) (a : AbsGen σ V P), Rel N d a → ∀ st,
+    ∃ d', Rel N d' (absRun a st ops).1 ∧
+      ∃ fuel, ∀ extra, genRun N (fuel + extra) d st ops = some (d', (absRun a st ops).2) := by
+  induction ops with
+  | nil => intro d a h st; exact ⟨d, h, 0, fun _ => rfl⟩
+  | cons op ops ih =>
+    intro d a h st
+    obtain ⟨d1, hr1, fuel1, hf1⟩ := genStep_refines N d a h op st
+    obtain ⟨d2, hr2, fuel2, hf2⟩ := ih d1 _ hr1 (absStep a op st).2.1
+    refine ⟨d2, hr2, fuel1 + fuel2, fun extra => ?_⟩
+    have e1 := hf1 (fuel2 + extra)
+    have e2 := hf2 (fuel1 + extra)
+    rw [← Nat.add_assoc] at e1
+    rw [← Nat.add_assoc, Nat.add_comm fuel2 fuel1] at e2
+    simp only [genRun, absRun, e1, e2]
+
+end GoCo
